@@ -1826,6 +1826,14 @@ impl<'a, MutexType, T> FusedFuture for ChannelReceiveFuture<'a, MutexType, T> {'
     {'name': 'benign-refactor-RF64-oneshots-8', 'props': ALLP + ['C16'], 'patch': 'benign/RF64/patch.diff'},
     {'name': 'benign-refactor-RF65-state-broadcast-futures-8', 'props': ALLP + ['C16'], 'patch': 'benign/RF65/patch.diff'},
     {'name': 'benign-refactor-RF66-containers-8', 'props': ALLP + ['C16'], 'patch': 'benign/RF66/patch.diff'},
+    {'name': 'benign-refactor-RF67-mutex-9', 'props': ALLP + ['C16'], 'patch': 'benign/RF67/patch.diff'},
+    {'name': 'benign-refactor-RF68-semaphore-9', 'props': ALLP + ['C16'], 'patch': 'benign/RF68/patch.diff'},
+    {'name': 'benign-refactor-RF69-event-timer-9', 'props': ALLP + ['C16'], 'patch': 'benign/RF69/patch.diff'},
+    {'name': 'benign-refactor-RF70-mpmc-9', 'props': ALLP + ['C16'], 'patch': 'benign/RF70/patch.diff'},
+    {'name': 'benign-refactor-RF71-oneshots-9', 'props': ALLP + ['C16'], 'patch': 'benign/RF71/patch.diff'},
+    {'name': 'benign-refactor-RF72-state-broadcast-futures-9', 'props': ALLP + ['C16'], 'patch': 'benign/RF72/patch.diff'},
+    {'name': 'benign-refactor-RF73-containers-9', 'props': [p for p in ALLP if p != 'C20'] + ['C16'], 'patch': 'benign/RF73/patch.diff'},
+    {'name': 'benign-refactor-RF74-parameter-renames', 'props': ALLP + ['C16'], 'patch': 'benign/RF74/patch.diff'},
     {'name': 'benign-unrelated-additions', 'props': ALLP, 'edits': [
         {'file': 'src/sync/semaphore.rs',
          'old': '''    /// Returns the amount of permits that are available on the semaphore
